@@ -127,7 +127,7 @@ theorem abs_NN {a : F64} : NN a.abs ↔ NN a := by
 theorem kk_neg (a : F64) : kk (-a) = - kk a := by
   unfold kk key; rw [neg_nb]; unfold Num.neg; rw [signBit_f64]
   have := nb_lt a
-  split <;> split <;> split <;> omega
+  split <;> split <;> omega
 
 theorem kk_abs (a : F64) : kk a.abs = |kk a| := by
   unfold kk key; rw [abs_nb]
@@ -187,25 +187,15 @@ theorem sval_split (s : Bool) (m : Nat) (e e0 : Int) (h : e0 ≤ e) :
   rw [pow2_split e e0 h]
   cases s <;> simp <;> ring
 
-theorem add_core (s : Bool) (m : Nat) (e : Int) (t : Bool) (n : Nat) (g : Int) :
+theorem add_core' (s : Bool) (m : Nat) (e : Int) (t : Bool) (n : Nat) (g e0 x' y' : Int)
+    (hx : sval s m e = (x' : ℚ) * pow2 e0) (hy : sval t n g = (y' : ℚ) * pow2 e0) :
     Rnd (sval s m e + sval t n g)
-      (let e0 := if e ≤ g then e else g
-       let x : Int := (m * 2 ^ (e - e0).toNat : Nat)
-       let y : Int := (n * 2 ^ (g - e0).toNat : Nat)
-       let x := if s then -x else x
-       let y := if t then -y else y
-       let z := x + y
-       if z == 0 then withSign .f64 (s && t) 0 else roundPack .f64 (z < 0) z.natAbs e0) := by
-  intro e0 x y x' y' z
-  have he0 : e0 ≤ e ∧ e0 ≤ g := by
-    show (if e ≤ g then e else g) ≤ e ∧ (if e ≤ g then e else g) ≤ g
-    split <;> omega
-  have hv : sval s m e + sval t n g = (z : ℚ) * pow2 e0 := by
-    rw [sval_split s m e e0 he0.1, sval_split t n g e0 he0.2]
-    show _ = (((x' + y' : Int)) : ℚ) * pow2 e0
-    push_cast
-    ring
+      (if (x' + y' == 0) = true then withSign .f64 (s && t) 0
+       else roundPack .f64 (decide (x' + y' < 0)) (x' + y').natAbs e0) := by
+  have hv : sval s m e + sval t n g = ((x' + y' : Int) : ℚ) * pow2 e0 := by
+    rw [hx, hy]; push_cast; ring
   rw [hv]
+  generalize x' + y' = z
   by_cases hz : z = 0
   · have : (z == 0) = true := by simp [hz]
     rw [this, hz]
@@ -217,6 +207,20 @@ theorem add_core (s : Bool) (m : Nat) (e : Int) (t : Bool) (n : Nat) (g : Int) :
     have h := Rnd_int (decide (z < 0)) z.natAbs e0 (by omega)
     rw [int_cast_signed z, mul_assoc]
     exact h
+
+theorem min_le_both (e g : Int) : (if e ≤ g then e else g) ≤ e ∧ (if e ≤ g then e else g) ≤ g := by
+  split <;> omega
+
+theorem add_core (s : Bool) (m : Nat) (e : Int) (t : Bool) (n : Nat) (g : Int) :
+    Rnd (sval s m e + sval t n g)
+      (let e0 := if e ≤ g then e else g
+       let x : Int := (m * 2 ^ (e - e0).toNat : Nat)
+       let y : Int := (n * 2 ^ (g - e0).toNat : Nat)
+       let x := if s then -x else x
+       let y := if t then -y else y
+       let z := x + y
+       if z == 0 then withSign .f64 (s && t) 0 else roundPack .f64 (z < 0) z.natAbs e0) :=
+  add_core' s m e t n g _ _ _ (sval_split s m e _ (min_le_both e g).1) (sval_split t n g _ (min_le_both e g).2)
 
 theorem add_Rnd (a b : Nat) (fa : FinB a) (fb : FinB b) : Rnd (bval a + bval b) (Num.add .f64 a b) := by
   unfold Num.add bval
@@ -336,5 +340,225 @@ theorem sub_Rnd (a b : Nat) (hb : b < 18446744073709551616) (fa : FinB a) (fb : 
   have := add_Rnd a (Num.neg .f64 b) fa (neg_FinB b hb fb)
   rw [bval_neg b hb] at this
   rw [sub_eq_add_neg]; exact this
+
+/-! ## `F64` level: rounding, monotonicity -/
+
+theorem Rnd_val {a : F64} (ha : Fin a) : Rnd (val a) a.nb := Rnd_self _ (nb_lt a) ha
+
+theorem add_nb {a b : F64} (ha : Fin a) (hb : Fin b) : Rnd (val a + val b) (a + b).nb := by
+  have h := add_Rnd a.nb b.nb ha hb
+  have : (a + b).nb = Num.add .f64 a.nb b.nb := nb_ofNatBits _ (Rnd_lt _ _ h).2
+  rw [this]; exact h
+
+theorem sub_nb {a b : F64} (ha : Fin a) (hb : Fin b) : Rnd (val a - val b) (a - b).nb := by
+  have h := sub_Rnd a.nb b.nb (nb_lt b) ha hb
+  have : (a - b).nb = Num.sub .f64 a.nb b.nb := nb_ofNatBits _ (Rnd_lt _ _ h).2
+  rw [this]; exact h
+
+theorem mul_nb {a b : F64} (ha : Fin a) (hb : Fin b) : Rnd (val a * val b) (a * b).nb := by
+  have h := mul_Rnd a.nb b.nb ha hb
+  have : (a * b).nb = Num.mul .f64 a.nb b.nb := nb_ofNatBits _ (Rnd_lt _ _ h).2
+  rw [this]; exact h
+
+theorem mant_ne_of_val {b : F64} (h : val b ≠ 0) : mantB b.nb ≠ 0 := by
+  intro h0; apply h; simp [val, bval, sval, h0]
+
+theorem div_nb {a b : F64} (ha : Fin a) (hb : Fin b) (h0 : val b ≠ 0) : Rnd (val a / val b) (a / b).nb := by
+  have h := div_Rnd a.nb b.nb ha hb (mant_ne_of_val h0)
+  have : (a / b).nb = Num.div .f64 a.nb b.nb := nb_ofNatBits _ (Rnd_lt _ _ h).2
+  rw [this]; exact h
+
+/-- correctly rounded images of ordered rationals are ordered -/
+theorem Rnd_le {v v' : ℚ} {a b : F64} (ha : Rnd v a.nb) (hb : Rnd v' b.nb) (h : v ≤ v') : a ≤ b := by
+  rw [le_def]; exact ⟨Rnd_NNB _ _ ha, Rnd_NNB _ _ hb, Rnd_mono _ _ _ _ ha hb h⟩
+
+theorem val_le_of_le {a b : F64} (ha : Fin a) (hb : Fin b) (h : a ≤ b) : val a ≤ val b :=
+  (le_iff_val ha hb).1 h
+
+theorem add_mono {a a' b b' : F64} (fa : Fin a) (fa' : Fin a') (fb : Fin b) (fb' : Fin b')
+    (h1 : a ≤ a') (h2 : b ≤ b') : a + b ≤ a' + b' :=
+  Rnd_le (add_nb fa fb) (add_nb fa' fb') (add_le_add (val_le_of_le fa fa' h1) (val_le_of_le fb fb' h2))
+
+theorem sub_mono {a a' b b' : F64} (fa : Fin a) (fa' : Fin a') (fb : Fin b) (fb' : Fin b')
+    (h1 : a ≤ a') (h2 : b' ≤ b) : a - b ≤ a' - b' :=
+  Rnd_le (sub_nb fa fb) (sub_nb fa' fb') (sub_le_sub (val_le_of_le fa fa' h1) (val_le_of_le fb' fb h2))
+
+theorem mul_mono_nonneg {a a' b b' : F64} (fa : Fin a) (fa' : Fin a') (fb : Fin b) (fb' : Fin b')
+    (ha0 : 0 ≤ val a) (hb0 : 0 ≤ val b) (h1 : a ≤ a') (h2 : b ≤ b') : a * b ≤ a' * b' :=
+  Rnd_le (mul_nb fa fb) (mul_nb fa' fb')
+    (mul_le_mul (val_le_of_le fa fa' h1) (val_le_of_le fb fb' h2) hb0
+      (le_trans ha0 (val_le_of_le fa fa' h1)))
+
+/-- division by a fixed positive divisor is monotone -/
+theorem div_mono_num {a a' b : F64} (fa : Fin a) (fa' : Fin a') (fb : Fin b) (hb : 0 < val b)
+    (h : a ≤ a') : a / b ≤ a' / b :=
+  Rnd_le (div_nb fa fb (ne_of_gt hb)) (div_nb fa' fb (ne_of_gt hb))
+    (div_le_div_of_nonneg_right (val_le_of_le fa fa' h) (le_of_lt hb))
+
+/-- a non-negative dividend divided by a larger positive divisor gives less -/
+theorem div_anti_den {a b b' : F64} (fa : Fin a) (fb : Fin b) (fb' : Fin b') (ha : 0 ≤ val a)
+    (hb' : 0 < val b') (h : b' ≤ b) : a / b ≤ a / b' := by
+  have hb : 0 < val b := lt_of_lt_of_le hb' (val_le_of_le fb' fb h)
+  exact Rnd_le (div_nb fa fb (ne_of_gt hb)) (div_nb fa fb' (ne_of_gt hb'))
+    (div_le_div_of_nonneg_left ha hb' (val_le_of_le fb' fb h))
+
+/-- a representable upper bound of the exact result bounds the rounded result -/
+theorem le_of_Rnd_le {v : ℚ} {r B : F64} (hr : Rnd v r.nb) (fB : Fin B) (h : v ≤ val B) : r ≤ B :=
+  Rnd_le hr (Rnd_val fB) h
+
+theorem ge_of_Rnd_ge {v : ℚ} {r B : F64} (hr : Rnd v r.nb) (fB : Fin B) (h : val B ≤ v) : B ≤ r :=
+  Rnd_le (Rnd_val fB) hr h
+
+theorem le_refl' {a : F64} (h : NN a) : a ≤ a := by rw [le_def]; exact ⟨h, h, le_refl _⟩
+
+theorem le_trans' {a b c : F64} (h1 : a ≤ b) (h2 : b ≤ c) : a ≤ c := by
+  rw [le_def] at *; exact ⟨h1.1, h2.2.1, by omega⟩
+
+theorem lt_le' {a b : F64} (h : a < b) : a ≤ b := by
+  rw [lt_def] at h; rw [le_def]; exact ⟨h.1, h.2.1, by omega⟩
+
+theorem neg_le_neg' {a b : F64} (h : a ≤ b) : -b ≤ -a := by
+  rw [le_def] at *; rw [kk_neg, kk_neg]
+  exact ⟨neg_NN.2 h.2.1, neg_NN.2 h.1, by omega⟩
+
+/-! ## NaN propagation -/
+
+/-- a NaN -/
+def NaN (a : F64) : Prop := ¬ NN a
+instance (a : F64) : Decidable (NaN a) := by unfold NaN; infer_instance
+
+theorem unpack_nan (b : Nat) (h : ¬ NNB b) : unpack .f64 b = .nan b := by
+  unfold NNB at h
+  rw [unpack_f64, if_pos (by omega), if_neg (by omega)]
+
+theorem unpack_not_nan (b : Nat) (h : NNB b) : ∀ x, unpack .f64 b ≠ .nan x := by
+  intro x hx
+  unfold NNB at h
+  rw [unpack_f64] at hx
+  split at hx
+  · split at hx
+    · cases hx
+    · omega
+  · split at hx <;> cases hx
+
+theorem quiet_nan (b : Nat) (hb : b < 18446744073709551616) (h : ¬ NNB b) :
+    ¬ NNB (quiet .f64 b) ∧ quiet .f64 b < 18446744073709551616 := by
+  unfold NNB at *
+  unfold quiet
+  have : Fmt.f64.quietBit = 2251799813685248 := by decide
+  rw [this]
+  split
+  · exact ⟨h, hb⟩
+  · rename_i hq
+    have : b / 2251799813685248 % 2 = 0 := by
+      have : b / 2251799813685248 % 2 ≠ 1 := by simpa using hq
+      omega
+    omega
+
+theorem propNaN_nan (a b : Nat) (ha : a < 18446744073709551616) (hb : b < 18446744073709551616)
+    (h : ¬ NNB a ∨ ¬ NNB b) :
+    ¬ NNB (propNaN .f64 a b) ∧ propNaN .f64 a b < 18446744073709551616 := by
+  unfold propNaN
+  by_cases h1 : NNB a
+  · rw [(isNaN_iff a).2 h1]
+    simp only [Bool.false_eq_true, if_false]
+    exact quiet_nan b hb (by tauto)
+  · have : Num.isNaN .f64 a = true := by
+      rcases hh : Num.isNaN .f64 a with _ | _
+      · exact absurd ((isNaN_iff a).1 hh) h1
+      · rfl
+    rw [this]
+    simp only [if_true]
+    exact quiet_nan a ha h1
+
+theorem add_nanB (a b : Nat) (ha : a < 18446744073709551616) (hb : b < 18446744073709551616)
+    (h : ¬ NNB a ∨ ¬ NNB b) :
+    ¬ NNB (Num.add .f64 a b) ∧ Num.add .f64 a b < 18446744073709551616 := by
+  have hp := propNaN_nan a b ha hb h
+  unfold Num.add
+  by_cases h1 : NNB a
+  · have h2 : ¬ NNB b := by tauto
+    rw [unpack_nan b h2]
+    have h3 := unpack_not_nan a h1
+    split <;> first | exact hp | (exfalso; simp_all)
+  · rw [unpack_nan a h1]; exact hp
+
+theorem mul_nanB (a b : Nat) (ha : a < 18446744073709551616) (hb : b < 18446744073709551616)
+    (h : ¬ NNB a ∨ ¬ NNB b) :
+    ¬ NNB (Num.mul .f64 a b) ∧ Num.mul .f64 a b < 18446744073709551616 := by
+  have hp := propNaN_nan a b ha hb h
+  unfold Num.mul
+  by_cases h1 : NNB a
+  · have h2 : ¬ NNB b := by tauto
+    rw [unpack_nan b h2]
+    have h3 := unpack_not_nan a h1
+    split <;> first | exact hp | (exfalso; simp_all)
+  · rw [unpack_nan a h1]; exact hp
+
+theorem div_nanB (a b : Nat) (ha : a < 18446744073709551616) (hb : b < 18446744073709551616)
+    (h : ¬ NNB a ∨ ¬ NNB b) :
+    ¬ NNB (Num.div .f64 a b) ∧ Num.div .f64 a b < 18446744073709551616 := by
+  have hp := propNaN_nan a b ha hb h
+  unfold Num.div
+  by_cases h1 : NNB a
+  · have h2 : ¬ NNB b := by tauto
+    rw [unpack_nan b h2]
+    have h3 := unpack_not_nan a h1
+    split <;> first | exact hp | (exfalso; simp_all)
+  · rw [unpack_nan a h1]; exact hp
+
+theorem sub_nanB (a b : Nat) (ha : a < 18446744073709551616) (hb : b < 18446744073709551616)
+    (h : ¬ NNB a ∨ ¬ NNB b) :
+    ¬ NNB (Num.sub .f64 a b) ∧ Num.sub .f64 a b < 18446744073709551616 := by
+  have hp := propNaN_nan a b ha hb h
+  unfold Num.sub
+  have : (Num.isNaN .f64 a || Num.isNaN .f64 b) = true := by
+    rcases h with h | h
+    · have : Num.isNaN .f64 a = true := by
+        rcases hh : Num.isNaN .f64 a with _ | _
+        · exact absurd ((isNaN_iff a).1 hh) h
+        · rfl
+      simp [this]
+    · have : Num.isNaN .f64 b = true := by
+        rcases hh : Num.isNaN .f64 b with _ | _
+        · exact absurd ((isNaN_iff b).1 hh) h
+        · rfl
+      simp [this]
+  rw [this]; exact hp
+
+theorem add_nan {a b : F64} (h : NaN a ∨ NaN b) : NaN (a + b) := by
+  have := add_nanB a.nb b.nb (nb_lt a) (nb_lt b) h
+  show ¬ NNB (F64.ofNatBits _).nb
+  rw [nb_ofNatBits _ this.2]; exact this.1
+
+theorem sub_nan {a b : F64} (h : NaN a ∨ NaN b) : NaN (a - b) := by
+  have := sub_nanB a.nb b.nb (nb_lt a) (nb_lt b) h
+  show ¬ NNB (F64.ofNatBits _).nb
+  rw [nb_ofNatBits _ this.2]; exact this.1
+
+theorem mul_nan {a b : F64} (h : NaN a ∨ NaN b) : NaN (a * b) := by
+  have := mul_nanB a.nb b.nb (nb_lt a) (nb_lt b) h
+  show ¬ NNB (F64.ofNatBits _).nb
+  rw [nb_ofNatBits _ this.2]; exact this.1
+
+theorem div_nan {a b : F64} (h : NaN a ∨ NaN b) : NaN (a / b) := by
+  have := div_nanB a.nb b.nb (nb_lt a) (nb_lt b) h
+  show ¬ NNB (F64.ofNatBits _).nb
+  rw [nb_ofNatBits _ this.2]; exact this.1
+
+theorem neg_nan {a : F64} (h : NaN a) : NaN (-a) := fun hn => h (neg_NN.1 hn)
+
+theorem abs_nan {a : F64} (h : NaN a) : NaN a.abs := fun hn => h (abs_NN.1 hn)
+
+theorem sqrt_nan {a : F64} (h : NaN a) : NaN a.sqrt := by
+  have hq := quiet_nan a.nb (nb_lt a) h
+  show ¬ NNB (F64.ofNatBits (Num.sqrt .f64 a.nb)).nb
+  have : Num.sqrt .f64 a.nb = quiet .f64 a.nb := by unfold Num.sqrt; rw [unpack_nan _ h]
+  rw [this, nb_ofNatBits _ hq.2]; exact hq.1
+
+theorem not_le_nan_left {a b : F64} (h : NaN a) : ¬ a ≤ b := fun hh => h ((le_def a b).1 hh).1
+theorem not_le_nan_right {a b : F64} (h : NaN b) : ¬ a ≤ b := fun hh => h ((le_def a b).1 hh).2.1
+theorem not_lt_nan_left {a b : F64} (h : NaN a) : ¬ a < b := fun hh => h ((lt_def a b).1 hh).1
+theorem not_lt_nan_right {a b : F64} (h : NaN b) : ¬ a < b := fun hh => h ((lt_def a b).1 hh).2.1
 
 end Ivg.FloatMono
